@@ -231,9 +231,18 @@ def c10_4(ctx, ss):
     (ctx.holds if top_ok else ctx.violation)("C10.4", k + " :: top", where(ff, c), "the top flag is passed through" if top_ok else f"the top flag passed is `{txt(a[2])}`")
     # appended once per tuple, returned and stored
     rets = returns(ff)
-    rn = rets[0].value.id if len(rets) == 1 and isinstance(rets[0].value, ast.Name) else None
+    # every exit must hand back the descriptors built from THIS chain's modes
+    acc = [r for r in rets if isinstance(r.value, ast.Name) and any(
+        d.kind == "assign" and is_empty_list(d.value) for d in flow.defs if d.name == r.value.id)]
+    for r in rets:
+        if r not in acc:
+            ctx.violation("C10.4", k + " :: other-exit", where(ff, r),
+                          f"`return {txt(r.value)[:70]}` hands back something other than the descriptors built from this chain's own decay lines "
+                          "(e.g. a memo shared between sub-chains: two decaying names resolving to one key get each other's descriptors)")
+    rn = acc[0].value.id if acc else None
     if rn is None:
-        raise AnchorMissing(f"{E}: return is not a local list")
+        raise AnchorMissing(f"{E}: no exit returns a locally accumulated descriptor list")
+    rets = acc
     sites = builder_sites(ff, flow, rn)
     ploop = enclosing(ff, c, (ast.For,))
     adds = [st for st, m, args in sites if m in ("append", "iadd")]
